@@ -158,7 +158,18 @@ def c02(tier):
     e4.prepare()
     subs, decls = ub_subjects(tier, e4.DERIVE_USE)
     merged = explore(res, "%s/c02" % tier, subs, derive_dep=e4.DEPS, derive_extern=None)
-    # E4 unavailable (unknown unsafe operation) => machinery, never a verdict
+    # A subject that does not build with the CHECKED derive is a violation only if it does not build with the REAL derive either;
+    # otherwise the rewrite pass could not handle the expansion (machinery, never a verdict).
+    import e2
+    dnc = [v for v in res.violations if v["key"].get("kind") == "does-not-compile" and "VERIF-E4-UNAVAILABLE" not in json.dumps(v)]
+    if dnc:
+        by_id = {s.sid: s for s in subs}
+        todo = [v for v in dnc if v["detail"].get("subject", {}).get("id") in by_id]
+        real = e2.compile_many([{"src": by_id[v["detail"]["subject"]["id"]].standalone() + "fn main() {}\n", "crate_type": "bin"} for v in todo])
+        for v, rv in zip(todo, real):
+            if rv.ok:
+                v["key"]["kind"] = "VERIF-E4-UNAVAILABLE (the real derive compiles this subject; the checked rewrite does not)"
+    # E4 unavailable (unknown unsafe operation / rewrite failure) => machinery, never a verdict
     unavailable = [v for v in res.violations if "VERIF-E4-UNAVAILABLE" in json.dumps(v)]
     if unavailable:
         res.violations = [v for v in res.violations if v not in unavailable]
